@@ -271,6 +271,12 @@ def run_history(cls, cfg, hist, verbose=False):
 
 def search(ctx, cls, cfg, depth, name, deadline=None, max_states=None, stride=97):
     """one BFS; -> (BfsResult, [core.Violation], detail dict)"""
+    if max_states is None:
+        # far above what any search needs on a tree whose state is a function of the canonical form (the largest quick
+        # search has 25 k states, the largest thorough one about a million): a search that grows beyond this does not
+        # close because the code keeps something that never repeats (e.g. an absolute time); it is cut and reported as
+        # capped (not exhaustive) instead of running for hours
+        max_states = 20_000_000 if ctx.thorough else 250_000
     fn = functools.partial(expand, cls, cfg)
     s = build(cls, cfg, ())
     try:
